@@ -1,6 +1,6 @@
 (* C12/Witness.v — non-vacuity of the hypotheses of Properties.v and concrete instances
    (all by computation). *)
-From Verif Require Import Common.Base C12.Model C12.Proofs1 C12.Proofs2 C12.Proofs3 C12.Proofs4 C12.Proofs5 C12.Proofs7 C12.Proofs8 C12.Proofs9.
+From Verif Require Import Common.Base C12.Model C12.Proofs1 C12.Proofs2 C12.Proofs3 C12.Proofs4 C12.Proofs5 C12.Proofs7 C12.Proofs8 C12.Proofs9 C12.Proofs10.
 From Coq Require Import Ascii.
 Require Coq.Strings.String.
 Import Coq.Strings.String.StringSyntax.
@@ -295,3 +295,28 @@ Qed.
 Example ex_list_value :
   resolve_string env retr (ref_text (L"env:YL")) = Ok (CExp (CList [CStr (L"a<va>"); CStr (L"vab")]) (L"[a<va>, vab]")).
 Proof. vm_compute. reflexivity. Qed.
+
+(* cyclic_core_rejected: hypotheses satisfiable (2-cycle CA -> CB -> CA of the table), embedded use *)
+Definition cyc_txt (n : str) : list tok :=
+  if str_eqb n (L"env:CA") then [TRef (L"env:CB")]
+  else if str_eqb n (L"env:CB") then [TChar "b"%char; TRef (L"env:CA")] else [].
+Definition cyc_core (n : str) : Prop := n = L"env:CA" \/ n = L"env:CB".
+Lemma cyc_world n : wf_from env retr (nval cyc_txt) false (cyc_txt n) /\ flag_after false (cyc_txt n) = false.
+Proof.
+  unfold cyc_txt. destruct (str_eqb n (L"env:CA")); [split; [wf_tac|reflexivity]|].
+  destruct (str_eqb n (L"env:CB")); split; try reflexivity; try exact I. wf_tac.
+Qed.
+Lemma cyc_closed n : cyc_core n -> exists m, cyc_core m /\ In (TRef m) (cyc_txt n).
+Proof.
+  intros [->| ->]; [exists (L"env:CB")|exists (L"env:CA")]; (split; [unfold cyc_core; auto|vm_compute; auto]).
+Qed.
+Example ex_cyclic_core :
+  resolve_string env retr (flatten [TChar "a"%char; TRef (L"env:CA")]) = Err [ETooMany].
+Proof.
+  apply (cyclic_core_refused env retr cyc_txt cyc_world cyc_core cyc_closed).
+  - unfold wf. wf_tac.
+  - reflexivity.
+  - exists (L"env:CA"). split; [now left|right; now left].
+Qed.
+Example ex_no_default_text : resolve_string [] retr (L"${A} $$ ${B}x}") = Ok (CStr (L"${A} $ ${B}x}")).
+Proof. apply no_default_colon_free. reflexivity. Qed.
